@@ -294,6 +294,47 @@ func runC20(res *lp.Result) {
 				}
 				runSeq(seq)
 			}
+			// ANY sequence of mutator calls, applicable to the frame's direction or not (RequestTracingId on a response in either
+			// sense, tracing id and warnings on a request): the doc comments call these calls useless, not forbidden — whatever the
+			// flags then say, the frame must still go through the codec: it encodes without an error, the header declares what was
+			// written, and the bytes decode
+			anyOps := []oa{{"fcompress", "true"}, {"fcompress", "false"}, {"freq", "true"}, {"freq", "false"}, {"ftracing", "nil"},
+				{"ftracing", "000102030405060708090a0b0c0d0e0f"}}
+			if v >= primitive.ProtocolVersion4 {
+				anyOps = append(anyOps, oa{"fpayload", "nil"}, oa{"fpayload", "0"}, oa{"fpayload", "2"}, oa{"fwarn", "nil"}, oa{"fwarn", "0"}, oa{"fwarn", "3"})
+			}
+			for i := 0; i < nseq; i++ {
+				f := frame.NewFrame(v, 1, m)
+				var tr []string
+				for j, n := 0, 1+rng.Intn(5); j < n; j++ {
+					o := anyOps[rng.Intn(len(anyOps))]
+					if isResp && o.n == "freq" && o.a == "true" && f.Body.TracingId == nil {
+						continue // asks a RESPONSE to carry an id it does not have: not a frame (as in the sequences above)
+					}
+					apply(f, o.n, o.a)
+					tr = append(tr, o.n+" "+o.a)
+				}
+				trace := fmt.Sprintf("v=%d kind=%s any ops=[%s]", v, kind, strings.Join(tr, "; "))
+				res.Case(trace, true)
+				res.Count("mutseq/any")
+				cd := codec
+				if f.Header.Flags.Contains(primitive.HeaderFlagCompressed) {
+					cd = lz4Codec
+				}
+				var buf bytes.Buffer
+				if err := cd.EncodeFrame(f.DeepCopy(), &buf); err != nil {
+					res.Add(lp.Finding{Kind: "violation", What: "frame no longer encodes after a sequence of mutator calls: " + firstWords(err.Error()), Input: trace, Impl: showFrameC20(f)})
+					continue
+				}
+				enc := buf.Bytes()
+				hl := f.Header.Version.FrameHeaderLengthInBytes()
+				if declared := int(int32(binary.BigEndian.Uint32(enc[hl-4 : hl]))); declared != len(enc)-hl {
+					res.Add(lp.Finding{Kind: "violation", What: fmt.Sprintf("after a sequence of mutator calls the header declares %d body bytes, %d were written", declared, len(enc)-hl), Input: trace})
+				}
+				if _, err := cd.DecodeFrame(bytes.NewReader(enc)); err != nil {
+					res.Add(lp.Finding{Kind: "violation", What: "frame no longer decodes after a sequence of mutator calls: " + firstWords(err.Error()), Input: trace, Impl: showFrameC20(f)})
+				}
+			}
 		}
 	}
 	// STARTUP accessors: random histories against an abstract record of the seven options
